@@ -11,6 +11,7 @@ package main
 // context once every datagram has been consumed (outcome `ctx-done`).
 
 import (
+	"bytes"
 	"context"
 	"crypto/md5"
 	"errors"
@@ -108,6 +109,11 @@ func runC05(req *radius.Packet, maxErr int, skip bool, hist [][]byte, slow bool)
 	}
 	defer peer.Close()
 	client := &radius.Client{Retry: 0, MaxPacketErrors: maxErr, InsecureSkipVerify: skip}
+	// history: for every second case the same Client value has completed another exchange before (with
+	// another secret, identifier and a long reply); a Client carries configuration only
+	if (int(req.Identifier)+len(hist))%2 == 0 {
+		priorExchangeC05(client)
+	}
 	ctx, cancel := context.WithTimeout(context.Background(), 8*time.Second)
 	defer cancel()
 	done := make(chan c05res, 1)
@@ -232,6 +238,39 @@ func evalC05(op string, args []string) string {
 		return r2
 	}
 	return r
+}
+
+// priorExchangeC05 lets the client complete one exchange with a well-behaved peer (result ignored).
+func priorExchangeC05(client *radius.Client) {
+	defer func() { recover() }()
+	peer, err := net.ListenUDP("udp4", &net.UDPAddr{IP: net.IPv4(127, 0, 0, 1)})
+	if err != nil {
+		return
+	}
+	defer peer.Close()
+	secret := []byte("prior-exchange-secret")
+	go func() {
+		buf := make([]byte, 4096)
+		peer.SetReadDeadline(time.Now().Add(time.Second))
+		n, addr, err := peer.ReadFromUDP(buf)
+		if err != nil {
+			return
+		}
+		if q, err := radius.Parse(buf[:n], secret); err == nil {
+			r := q.Response(radius.CodeAccessAccept)
+			for i := 0; i < 12; i++ {
+				r.Add(18, radius.Attribute(bytes.Repeat([]byte{0xee}, 250)))
+			}
+			if w, err := r.Encode(); err == nil {
+				peer.WriteToUDP(w, addr)
+			}
+		}
+	}()
+	prior := radius.New(radius.CodeAccessRequest, secret)
+	prior.Add(1, radius.Attribute("prior"))
+	ctx, cancel := context.WithTimeout(context.Background(), time.Second)
+	defer cancel()
+	client.Exchange(ctx, prior, peer.LocalAddr().String())
 }
 
 // ---- generation ----
